@@ -70,8 +70,9 @@ CHECKS["C01"] = dict(
               "judged through restart and compaction; recorded random histories validated by TLC (Trace_StateMachine)",
     text="TLC checks that snapshot + log-suffix replay reproduces the fold of the applied requests for every placement of "
          "compactions, interrupted snapshot attempts and restarts, over ALL seven components (namespaces as a client is served "
-         "them: the user namespaces of the snapshot plus the namespaces in use by a configuration - ListedNs, with a config key "
-         "inside a user namespace in the simulation; configs with type / description / "
+         "them: the user namespaces of the snapshot plus the namespaces in use by a configuration or by a persistent instance - "
+         "ListedNs, with a config key inside a user namespace and a persistent instance in a namespace of its own in the "
+         "simulation; namespace Set / Update / Delete; configs with type / description / "
          "history, namespaces, users, sequences, persistent instances, replicated cache, MCP tool specs and servers with the "
          "derived reference semantics); named deviations (stale snapshot tail, non-atomic capture, two MCP bookkeeping "
          "deviations) are negative controls. Generated behaviours are executed on the real node wiring: after every step the "
@@ -89,14 +90,17 @@ CHECKS["C04"] = dict(
               "(strace): (1) the journal is validated by TLC against CrashOrder (Trace_CrashOrder.tla, catalogue records "
               "decoded with the store's own types), (2) the directory image of EVERY journal prefix is rebuilt and opened by "
               "the real start-up code and TLC evaluates the crash contract (Reopens, Contiguous, KeepsAcked, OnlySubmitted, "
-              "MetaWritten, AppliedReproducible) on every image",
+              "MetaWritten, AppliedReproducible, LastIndexReadable) on every image, (3) every recovered image is USED the way "
+              "Raft uses a store after a restart - appends behind the reported last index, kill, second start - and TLC "
+              "evaluates UsableAfterRecovery (nothing of the first opening lost, exactly the new appends added, contiguous)",
     text="The design leg decides for every interleaving of mutations (small id sets) that the write order keeps the store "
          "recoverable at every crash point; the journal leg binds that order to the code; the image leg is exhaustive over "
          "the crash points of each executed history and sampled over histories.",
     note="crash model as in the property (process death, writes atomic and in program order); journal by strace, no source "
          "change; quick tier opens at most 90 images per history; a journal mutation the order model does not know is "
          "recorded as model drift (evidence) unless a Defect_* variant explains it, which is a violation; MetaWritten in the "
-         "property's weak form",
+         "property's weak form; an append counts as acknowledged and flushed once the node answered it (the harness reads the "
+         "entry back first, which waits for the store's pending file write)",
     design_ref="5 C04")
 CHECKS["C06"] = dict(
     engine="configcluster",
